@@ -36,6 +36,7 @@ type ParserFacts struct {
 	Slots     []SlotStore
 	typeInfo  map[string]nodeTypeInfo
 	treeTypes map[*types.Named]bool
+	bind      *fnBinding // set while a value is judged inside a reader that was handed functions
 }
 
 type nodeTypeInfo struct {
@@ -695,6 +696,38 @@ func (pf *ParserFacts) classifyCond(c ssa.Value, d *derivation, depth int) (atom
 			name = x.Call.Method.Name()
 			args = append([]ssa.Value{x.Call.Value}, x.Call.Args...)
 		}
+		if name == "" && pf.bind != nil && !x.Call.IsInvoke() {
+			// a predicate the reader was handed: what it says is read off the function handed over
+			if fv, _, ok := pf.bind.resolve(x.Call.Value, 0); ok {
+				if g := fnOfValue(fv); g != nil && len(g.Blocks) > 0 {
+					for i, a := range x.Call.Args {
+						if !(d.types[a] || d.vals[a]) || i >= len(g.Params) {
+							continue
+						}
+						pd := &derivation{vals: map[ssa.Value]bool{}, types: map[ssa.Value]bool{}}
+						sub := pf.derive(g.Params[i], false)
+						if d.types[a] {
+							for v := range sub.vals {
+								pd.types[v] = true
+							}
+							for v := range sub.types {
+								pd.types[v] = true
+							}
+						} else {
+							pd = sub
+						}
+						prev := pf.bind
+						pf.bind = nil
+						kinds, ok := pf.truthKinds(g, pd)
+						pf.bind = prev
+						if ok {
+							return anyOf(kinds), true, true
+						}
+					}
+				}
+			}
+			return "", false, false
+		}
 		uses := false
 		for _, a := range args {
 			if d.types[a] || d.vals[a] {
@@ -838,7 +871,7 @@ func (pf *ParserFacts) guardedByIdx(s SlotStore, v ssa.Value, onlyIdx int64, acc
 	loops := naturalLoops(fn)
 	var loopSkips []string
 	for _, a := range atoms {
-		if !acc[a.kind] {
+		if !acceptsAtom(acc, a.kind) {
 			continue
 		}
 		b := a.ifi.Block()
